@@ -396,6 +396,7 @@ class ElfiModel(GraphicalModel):
         """
         kopy = super(ElfiModel, self).copy()
         kopy.name = "{}_copy_{}".format(self.name, random_name())
+        kopy.observed = self.observed.copy()
         return kopy
 
     def save(self, prefix=None):
